@@ -15,7 +15,7 @@ use crate::exop::Exop;
 use crate::ldap::SaslCreds;
 use crate::protocol::MiscSender;
 use crate::protocol::{LdapOp, MaybeControls, ResultSender};
-use crate::search::parse_refs;
+use crate::search::try_parse_refs;
 use crate::search::ResultEntry;
 use crate::RequestId;
 
@@ -320,10 +320,18 @@ pub(crate) struct LdapResultExt(pub LdapResult, pub Exop, pub SaslCreds);
 
 impl From<Tag> for LdapResultExt {
     fn from(t: Tag) -> LdapResultExt {
+        LdapResultExt::try_from_tag(t).expect("malformed LDAPResult")
+    }
+}
+
+impl LdapResultExt {
+    /// Fallible conversion, for input coming straight from the network: `None`
+    /// if the structure is not that of an LDAPResult with its optional trailers.
+    pub(crate) fn try_from_tag(t: Tag) -> Option<LdapResultExt> {
         let t = match t {
             Tag::StructureTag(t) => t,
             Tag::Null(_) => {
-                return LdapResultExt(
+                return Some(LdapResultExt(
                     LdapResult {
                         rc: 0,
                         matched: String::from(""),
@@ -336,37 +344,23 @@ impl From<Tag> for LdapResultExt {
                         val: None,
                     },
                     SaslCreds(None),
-                )
+                ))
             }
             _ => unimplemented!(),
         };
-        let mut tags = t.expect_constructed().expect("result sequence").into_iter();
+        let mut tags = t.expect_constructed()?.into_iter();
         let rc = match parse_uint(
-            tags.next()
-                .expect("element")
+            tags.next()?
                 .match_class(TagClass::Universal)
                 .and_then(|t| t.match_id(Types::Enumerated as u64))
-                .and_then(|t| t.expect_primitive())
-                .expect("result code")
+                .and_then(|t| t.expect_primitive())?
                 .as_slice(),
         ) {
             Ok((_, rc)) => rc as u32,
-            _ => panic!("failed to parse result code"),
+            _ => return None,
         };
-        let matched = String::from_utf8(
-            tags.next()
-                .expect("element")
-                .expect_primitive()
-                .expect("octet string"),
-        )
-        .expect("matched dn");
-        let text = String::from_utf8(
-            tags.next()
-                .expect("element")
-                .expect_primitive()
-                .expect("octet string"),
-        )
-        .expect("diagnostic message");
+        let matched = String::from_utf8(tags.next()?.expect_primitive()?).ok()?;
+        let text = String::from_utf8(tags.next()?.expect_primitive()?).ok()?;
         let mut refs = Vec::new();
         let mut exop_name = None;
         let mut exop_val = None;
@@ -376,25 +370,22 @@ impl From<Tag> for LdapResultExt {
                 None => break,
                 Some(comp) => match comp.id {
                     3 => {
-                        refs.extend(parse_refs(comp));
+                        refs.extend(try_parse_refs(comp)?);
                     }
                     7 => {
-                        sasl_creds = Some(comp.expect_primitive().expect("octet string"));
+                        sasl_creds = Some(comp.expect_primitive()?);
                     }
                     10 => {
-                        exop_name = Some(
-                            String::from_utf8(comp.expect_primitive().expect("octet string"))
-                                .expect("exop name"),
-                        );
+                        exop_name = Some(String::from_utf8(comp.expect_primitive()?).ok()?);
                     }
                     11 => {
-                        exop_val = Some(comp.expect_primitive().expect("octet string"));
+                        exop_val = Some(comp.expect_primitive()?);
                     }
                     _ => (),
                 },
             }
         }
-        LdapResultExt(
+        Some(LdapResultExt(
             LdapResult {
                 rc,
                 matched,
@@ -407,7 +398,7 @@ impl From<Tag> for LdapResultExt {
                 val: exop_val,
             },
             SaslCreds(sasl_creds),
-        )
+        ))
     }
 }
 
